@@ -131,6 +131,11 @@ def recorded_amount(col, gcode, paths, I, rule):
 def recorded_amount_c04(col, gcode, paths, I):
     declare(col)
     recorded_amount(col, gcode, paths, I, 'C04.R4')
+    # the E words of the generated commands must reach the firmware as the numbers they stand for: plain decimals (C07.R1/R2)
+    from . import rules_c07
+    col.rule('C07.R1', 'C07: every synthesised command is one G/M code followed by distinct single-letter words', floor=4)
+    col.rule('C07.R2', 'C07: every numeric word (the E of G92 E / G1 E in particular) is rendered by an exponent-free formatter', floor=8)
+    rules_c07.path_rules(col, gcode, paths, I, own=False)
 
 
 def run(ctx, tier):
